@@ -169,6 +169,8 @@ def run(ctx):
     r1 = ctx.rule("R18.1", "law derivatives: every coefficient of the assembled dW and d2W equals the corresponding derivative of W", min_instances=5)
     r3 = ctx.rule("R18.3", "reference state: W = 0, isotropic stress W_1 + 2 W_2 + W_3 = 0 and fibre terms vanish at I1=I2=3, I3=1, I4=I6=1, I8=0", min_instances=5)
     time_quadrature_rule(ctx)
+    invariant_rules(ctx)
+    thickness_degree_rule(ctx)
     r4 = ctx.rule("R18.4", "objectivity by construction: the laws read the deformation only through invariants of C", min_instances=5)
     base = repo.cls(f"{LAWS}._HyperElastic")
     laws = [c for c in repo.subclasses(base) if c.name not in ("AutoDiff",) and all(m in c.methods and c.methods[m].cls is c for m in ("Compute_W", "Compute_dWde", "Compute_d2Wde"))]
@@ -325,3 +327,221 @@ def time_quadrature_rule(ctx):
             else:
                 r.fail(f.qualname, f"path-average:n{npts}:k{coefK}", f.file, loop.lineno, "TimeQuadratureStressTensor",
                        f"nPoints={npts}, coefK={coefK}: averaged stress {got_dw!r} / tangent {got_d2!r}; expected {want_dw!r} / {want_d2!r} (every node on the strain path between the end states): S_quad : de != dW, the discrete energy balance is lost")
+
+
+def invariant_rules(ctx):
+    """R18.2: the hand-written first and second derivatives of the invariants of C in _state.py are the derivatives of
+    the invariants themselves, in the Kelvin-Mandel convention used by the laws (shear entries carry sqrt(2)):
+    dIk[a] = s_a dIk/dc_a, d2Ik[a][b] = s_a s_b d2Ik/dc_a dc_b with s = (1, 1, 1, 1/sqrt2, 1/sqrt2, 1/sqrt2) over
+    (xx, yy, zz, yz, xz, xy) - polynomial identities in the components of C and of the fibre directions."""
+    from ..alg import is_zero
+    from ..femchain import XFe, fe_hook_full
+    from ..xarray import XArray
+    from ..xeval import XObj
+
+    repo = ctx.repo
+    r = ctx.rule("R18.2", "invariants of C: dIk/dC and d2Ik/dC2 in _state.py are the Kelvin-Mandel derivatives of Ik (k = 1, 2, 3 and the fibre invariants 4, 6, 8), as polynomial identities", min_instances=10)
+    st = repo.cls("EasyFEA.Models.HyperElastic._state.HyperElasticState")
+    names = ["cxx", "cyy", "czz", "cyz", "cxz", "cxy"]
+    c = {n: Poly.var(n) for n in names}
+    f1 = lambda p: XFe((1, 1), [p])
+    C9 = [f1(c["cxx"]), f1(c["cxy"]), f1(c["cxz"]), f1(c["cxy"]), f1(c["cyy"]), f1(c["cyz"]), f1(c["cxz"]), f1(c["cyz"]), f1(c["czz"])]
+    s2 = MQ.sqrt(2)
+    scale = [Q(1), Q(1), Q(1), 1 / s2, 1 / s2, 1 / s2]
+
+    class Dir:
+        def __init__(self, tag):
+            self.tag = tag
+
+    T1, T2 = Dir("p"), Dir("q")
+    comps = lambda T: tuple(f1(Poly.var(f"{T.tag}{k}")) for k in "xyz")
+    obj = XObj(st, dict(_Compute_C=lambda: list(C9), _GetDims=lambda: (1, 1, 3), _Get_normalized_components=comps))
+    I = Interp(repo)
+    I.call_hook = fe_hook_full
+
+    def scalar(v):
+        v = XArray.from_nested(v) if not isinstance(v, Poly) else v
+        return v if isinstance(v, Poly) else (v.data[0] if not isinstance(v.data[0], (int, Fraction)) else Poly.const(v.data[0]))
+
+    def topoly(x):
+        return x if isinstance(x, Poly) else Poly.const(x)
+
+    cases = [("1", []), ("2", []), ("3", []), ("4", [T1]), ("6", [T1]), ("8", [T1, T2])]
+    for k, args in cases:
+        fI = st.methods.get(f"Compute_I{k}")
+        fd = st.methods.get(f"Compute_dI{k}dC")
+        fdd = st.methods.get(f"Compute_d2I{k}dC")
+        if fI is None or fd is None:
+            raise AnalysisError(f"HyperElasticState.Compute_I{k} / Compute_dI{k}dC not found")
+        Ik = topoly(scalar(I.call_function(fI, list(args), self_obj=obj)))
+        d = XArray.from_nested(I.call_function(fd, list(args), self_obj=obj)).reshape(-1)
+        r.instance(fn=fd.qualname)
+        bad = None
+        if d.size != 6:
+            bad = f"dI{k}dC has {d.size} entries in 3-D"
+        else:
+            for a, nm in enumerate(names):
+                want = Ik.diff(nm) * scale[a]
+                if not is_zero(topoly(d.data[a]) - want):
+                    bad = f"entry {a} ({nm[1:]}) is {d.data[a]!r}, expected {want!r}"
+        if bad:
+            r.fail(fd.qualname, f"dI{k}", fd.file, fd.lineno, f"Compute_dI{k}dC", f"dI{k}/dC is not the Kelvin-Mandel derivative of I{k}: {bad}: for every law using I{k} the stress is no longer dW/de")
+        else:
+            r.ok(f"dI{k}/dC == Kelvin-Mandel gradient of I{k}")
+        if fdd is not None:
+            r.instance(fn=fdd.qualname)
+            dd = XArray.from_nested(I.call_function(fdd, [], self_obj=obj))
+            dd = dd.reshape(6, 6) if dd.size == 36 else dd
+            bad = None
+            if dd.shape != (6, 6):
+                bad = f"d2I{k}dC has shape {dd.shape}"
+            else:
+                for a, na in enumerate(names):
+                    for b, nb in enumerate(names):
+                        want = Ik.diff(na).diff(nb) * scale[a] * scale[b]
+                        if not is_zero(topoly(dd[a, b]) - want):
+                            bad = f"entry ({a},{b}) is {dd[a, b]!r}, expected {want!r}"
+            if bad:
+                r.fail(fdd.qualname, f"d2I{k}", fdd.file, fdd.lineno, f"Compute_d2I{k}dC", f"d2I{k}/dC2 is not the Kelvin-Mandel Hessian of I{k}: {bad}: the material tangent is no longer the derivative of the stress")
+            else:
+                r.ok(f"d2I{k}/dC2 == Kelvin-Mandel Hessian of I{k}")
+
+
+def thickness_degree_rule(ctx):
+    """R18.7: in 2-D every element array a non-linear operator hands back (tangent, residual, damping) is homogeneous of
+    degree one in the thickness: a syntax-directed degree analysis over the statements of each operator (products add
+    degrees, sums need equal degrees, the `dim == 2` branch is the analysed path)."""
+    repo = ctx.repo
+    r = ctx.rule("R18.7", "thickness homogeneity of the non-linear operators (2-D path): every array returned through the dof reordering carries the thickness exactly once, in all of its additive terms", min_instances=5)
+    mod = repo.module("EasyFEA.FEM.Operators.NonLinear")
+    MIXED = "mixed"
+
+    def analyse(f):
+        env = {}
+
+        def deg(e):
+            if isinstance(e, ast.Constant):
+                return 0
+            if isinstance(e, ast.Name):
+                return 1 if e.id == "thickness" and "thickness" not in env else env.get(e.id, 0)
+            if isinstance(e, ast.Attribute):
+                return 1 if e.attr == "thickness" else 0
+            if isinstance(e, ast.UnaryOp):
+                return deg(e.operand)
+            if isinstance(e, ast.BinOp):
+                a, b = deg(e.left), deg(e.right)
+                if MIXED in (a, b) or isinstance(a, tuple) or isinstance(b, tuple):
+                    return MIXED
+                if isinstance(e.op, (ast.Mult, ast.MatMult)):
+                    return a + b
+                if isinstance(e.op, ast.Div):
+                    return a - b
+                if isinstance(e.op, (ast.Add, ast.Sub)):
+                    if isinstance(e.left, ast.Constant) and e.left.value in (0, 0.0):
+                        return b
+                    if isinstance(e.right, ast.Constant) and e.right.value in (0, 0.0):
+                        return a
+                    return a if a == b else MIXED
+                return MIXED if (a or b) else 0
+            if isinstance(e, ast.IfExp):
+                t = norm_text(e.test)
+                if "dim == 2" in t:
+                    return deg(e.body)
+                a, b = deg(e.body), deg(e.orelse)
+                return a if a == b else MIXED
+            if isinstance(e, (ast.Tuple, ast.List)):
+                return tuple(deg(x) for x in e.elts)
+            if isinstance(e, ast.Subscript):
+                d = deg(e.value)
+                return d
+            if isinstance(e, ast.Call):
+                d = dotted(e.func) or ""
+                args = [a for a in e.args if not (isinstance(a, ast.Constant) and isinstance(a.value, str))]
+                ds = [deg(a) for a in args]
+                if d.split(".")[-1] == "einsum":
+                    return MIXED if any(x == MIXED or isinstance(x, tuple) for x in ds) else sum(ds)
+                if d == "sum" and args and isinstance(args[0], ast.GeneratorExp):
+                    return deg(args[0].elt)
+                if d.split(".")[-1].endswith("__reorder_dofs"):
+                    return tuple(ds[2:])
+                flat = [x for x in ds if not isinstance(x, tuple)]
+                if MIXED in flat:
+                    return MIXED
+                return max(flat, default=0)
+            if isinstance(e, ast.GeneratorExp):
+                return deg(e.elt)
+            return 0
+
+        def bind(t, d):
+            if isinstance(t, ast.Name):
+                env[t.id] = d
+            elif isinstance(t, (ast.Tuple, ast.List)):
+                for i, x in enumerate(t.elts):
+                    bind(x, d[i] if isinstance(d, tuple) and i < len(d) else (0 if not isinstance(d, tuple) else MIXED))
+
+        returned = []
+
+        def run(stmts):
+            for st in stmts:
+                if isinstance(st, ast.Assign):
+                    d = deg(st.value)
+                    for t in st.targets:
+                        bind(t, d)
+                elif isinstance(st, ast.AugAssign) and isinstance(st.target, ast.Name):
+                    a, b = env.get(st.target.id, 0), deg(st.value)
+                    if MIXED in (a, b) or isinstance(a, tuple) or isinstance(b, tuple):
+                        env[st.target.id] = MIXED
+                    elif isinstance(st.op, ast.Mult):
+                        env[st.target.id] = a + b
+                    elif isinstance(st.op, ast.Div):
+                        env[st.target.id] = a - b
+                    else:
+                        first = st.target.id not in env or a == 0 and isinstance(env.get(st.target.id), int) and env.get("_zero_" + st.target.id, False)
+                        env[st.target.id] = b if (a == b or first) else MIXED
+                elif isinstance(st, ast.If):
+                    t = norm_text(st.test)
+                    if "dim == 2" in t:
+                        run(st.body)
+                    elif "dim == 3" in t:
+                        run(st.orelse)
+                    else:
+                        run(st.body)
+                        run(st.orelse)
+                elif isinstance(st, (ast.For, ast.While, ast.With)):
+                    run(st.body)
+                elif isinstance(st, ast.Return) and st.value is not None:
+                    elts = st.value.elts if isinstance(st.value, ast.Tuple) else [st.value]
+                    if all(isinstance(x, ast.Constant) and x.value is None for x in elts):
+                        continue  # "nothing to contribute" exit
+                    returned.append((st, deg(st.value)))
+
+        # accumulators initialised to 0.0 take the degree of their first increment
+        for n in ast.walk(f.node):
+            if isinstance(n, ast.Assign) and isinstance(n.targets[0], ast.Name) and isinstance(n.value, ast.Constant) and n.value.value in (0, 0.0):
+                env["_zero_" + n.targets[0].id] = True
+        run(f.node.body)
+        return returned
+
+    for name, f in sorted(mod.functions.items()):
+        if name.startswith("_") or not any(isinstance(n, ast.Attribute) and n.attr == "thickness" for n in ast.walk(f.node)):
+            continue
+        if not any(isinstance(n, ast.Call) and (dotted(n.func) or "").endswith("__reorder_dofs") for n in ast.walk(f.node)):
+            continue
+        r.instance(fn=f.qualname)
+        rets = analyse(f)
+        bad = None
+        narr = 0
+        for st, d in rets:
+            ds = d if isinstance(d, tuple) else (d,)
+            # the arrays are the leading entries produced by the reordering; trailing bookkeeping (point counts) has degree 0
+            for k, x in enumerate(ds):
+                is_array = k < 2 or x != 0
+                if not is_array:
+                    continue
+                narr += 1
+                if x != 1:
+                    bad = f"entry {k} of `{norm_text(st)[:60]}` has thickness degree {x}"
+        if bad or not narr:
+            r.fail(f.qualname, f"thickness-degree:{name}", f.file, f.lineno, name, f"{bad or 'no returned array found'}: in 2-D the tangent, residual and damping arrays must each carry the thickness exactly once in every term (otherwise the tangent is not the derivative of the residual for thickness != 1)")
+        else:
+            r.ok(f"{name}: {narr} returned arrays of thickness degree 1")
